@@ -109,11 +109,24 @@ def sub_rows(w, orig):
     return orig[keep].tolist()
 
 
-def _guard(ctx, site, cls, desc, block, fn):
-    """Run a pfhedge call; an exception where the reference defines a value is a violation."""
+def _detach(x):
+    if isinstance(x, torch.Tensor):
+        return x.detach()
+    if isinstance(x, (tuple, list)):
+        return type(x)(_detach(v) for v in x)
+    return x
+
+
+def _guard(ctx, site, cls, desc, block, fn, grad=False):
+    """Run a pfhedge call (autograd enabled when ``grad``: the mode fit()/compute_loss() use; else
+    under no_grad: the mode price() uses); an exception where the reference defines a value is a
+    violation.  Results are detached."""
     try:
-        with torch.no_grad():
-            return True, fn()
+        with (torch.enable_grad() if grad else torch.no_grad()):
+            out = fn()
+            if grad and isinstance(out, torch.Tensor) and out.requires_grad:
+                ctx.add("results_requiring_grad")
+            return True, _detach(out)
     except Exception as e:   # noqa: BLE001
         import traceback
         ctx.violation(site, f"{cls}:raises:{type(e).__name__}",
@@ -298,11 +311,14 @@ def hedge_tree(ctx, block):
     N, n_sym, orig, H = world.N, world.n_sym, world.orig, world.H
     kit = hw.make_hedger(m, world, ctx.seed)
     hedger, exact = kit.hedger, kit.exact
+    grad = bool(block.get("grad"))
     site = "Hedger.compute_hedge"
-    tag = f"{_mode(m)}:{m['model']}"
-    desc = (f"model={m['model']} mode={_mode(m)} inputs={[hw.label(s) for s in kit.specs]} "
+    tag = f"{_mode(m)}:{m['model']}" + (":autograd" if grad else "")
+    desc = (f"model={m['model']} mode={_mode(m)} autograd={'on' if grad else 'off'} "
+            f"inputs={[hw.label(s) for s in kit.specs]} "
             f"{w['ul']}/{w.get('kind')}{'' if w.get('call', True) else '/put'} H={H}")
-    ok, hedge = _guard(ctx, site, tag, desc, block, lambda: hedger.compute_hedge(world.d, hedge=world.hedge))
+    ok, hedge = _guard(ctx, site, tag, desc, block, lambda: hedger.compute_hedge(world.d, hedge=world.hedge),
+                       grad=grad)
     if not ok:
         return
     if tuple(hedge.shape) != (N, H, T):
@@ -343,8 +359,11 @@ def hedge_tree(ctx, block):
                       block={"world": dict(w, rows=[int(orig[r])]), "model": m})
     if hedge[..., :-1].isnan().any():
         ctx.add("nan_hedges", int(hedge.isnan().any(-1).any(-1).sum()))
+    # ... and no cost at maturity: P&L and loss are those of the position HELD over the last step
+    if block.get("pl") and tuple(hedge.shape) == (N, H, T):
+        _pl_at_maturity(ctx, block, hedge, tag, desc, grad, exact)
     # no cross-path coupling
-    rows = sub_rows(w, orig)
+    rows = [] if grad else sub_rows(w, orig)
     if 0 < len(rows) < N:
         world2 = hw.build_world(dict(w, rows=rows))
         kit2 = hw.make_hedger(m, world2, ctx.seed)
@@ -365,6 +384,54 @@ def hedge_tree(ctx, block):
         ctx.sample({"family": "hedge_tree", "config": desc, "path": world.spot[r].tolist(),
                     "second_factor": None if world.second is None else world.second[r].tolist(),
                     "hedge": hedge[r].tolist()})
+
+
+def _pl_at_maturity(ctx, block, hedge, tag, desc, grad, exact):
+    """compute_pl / compute_portfolio / compute_loss (scripted simulate) in the same autograd mode, on
+    fresh objects, against pl() of the hedge with the last column replaced by the held position
+    (pl() itself is C01's subject): a re-trade at the final index shows as a transaction cost."""
+    import pfhedge.nn.functional as F
+    w, m = block["world"], block["model"]
+    held = hedge.clone()
+    held[..., -1] = held[..., -2]
+    for what in ("pl", "portfolio", "loss"):
+        world = hw.build_world(w)
+        kit = hw.make_hedger(m, world, ctx.seed)
+        hl = world.hedge if world.hedge is not None else list(world.d.underliers())
+        spot = torch.stack([h.spot for h in hl], dim=1).clone()
+        cost = [h.cost for h in hl]
+        with torch.no_grad():
+            payoff = world.d.payoff().clone()
+            exp_pf = F.pl(spot=spot, unit=held, cost=cost)
+            exp = {"pl": F.pl(spot=spot, unit=held, cost=cost, payoff=payoff), "portfolio": exp_pf}
+        site = "Hedger.compute_" + what
+        if what == "loss":
+            bufs = {"spot": world.spot.clone()}
+            if world.second is not None:
+                bufs[market.TWO_FACTOR[w["ul"]]] = world.second.clone()
+            sim = market.ScriptedSimulate(world.p, [bufs])
+            ok, got = _guard(ctx, site, tag, desc, block,
+                             lambda: kit.hedger.compute_loss(world.d, hedge=world.hedge, n_paths=world.N,
+                                                             enable_grad=grad), grad=grad)
+            sim.remove()
+            with torch.no_grad():
+                expected = kit.hedger.criterion(exp_pf, payoff)
+        else:
+            fn = kit.hedger.compute_pl if what == "pl" else kit.hedger.compute_portfolio
+            ok, got = _guard(ctx, site, tag, desc, block, lambda: fn(world.d, hedge=world.hedge), grad=grad)
+            expected = exp[what]
+        if not ok:
+            continue
+        ctx.tick(world.N)
+        scale = float(spot.abs().max()) * spot.size(-1) * max(1.0, float(held.nan_to_num().abs().max())) + 1.0
+        tol = 0.0 if exact else hw.tol(world.dtype) * scale
+        good = ((got - expected).abs() <= tol + (0 if exact else hw.tol(world.dtype)) * expected.abs()) | (
+            got.isnan() & expected.isnan()) | (got == expected)
+        if tuple(got.shape) != tuple(expected.shape) or not good.all():
+            ctx.violation(site, f"cost_at_maturity:{tag}",
+                          f"compute_{what} is not the P&L of the position held over the last step: a trade (and "
+                          f"its cost) happens at the final time index ({desc})",
+                          observed=got.flatten()[:6].tolist(), expected=expected.flatten()[:6].tolist(), block=block)
 
 
 # ----------------------------------------------------------------------------
@@ -419,6 +486,11 @@ def model_specs(H, listed):
         if listed:
             out.append({"model": "linear", "inputs": [{"f": "spot", "pricer": listed}, {"f": "underlier_spot"},
                                                       {"f": "log_spot", "pricer": listed}], "mode": mode})
+        if H == 1:   # models that return (a view of) their input; single-feature input lists
+            out += [{"model": "identity", "inputs": [{"f": "underlier_spot"}], "mode": mode},
+                    {"model": "identity", "inputs": [{"f": "time_to_maturity"}], "mode": mode},
+                    {"model": "first", "inputs": [{"f": "moneyness"}], "mode": mode},
+                    {"model": "first", "inputs": [{"f": "max_moneyness"}, {"f": "variance"}], "mode": mode}]
     # state-dependent by themselves
     out += [
         {"model": "ww"},
@@ -528,8 +600,31 @@ def run(ctx):
             for m in model_specs(1 if hv == "default" else 2, None):
                 if hw.model_ok(m, wh):
                     hblocks.append({"world": wh, "model": m})
+    # every hedge block: positive transaction cost; autograd ON (the mode of fit / compute_loss; model
+    # parameters require grad) next to autograd OFF (the mode of price); P&L and loss at maturity
+    trainable = ("linear", "mlp", "user")
+    both = []
+    for b in hblocks:
+        b = {"world": dict(b["world"], cost=1 / 128), "model": b["model"]}
+        wb, mb = b["world"], b["model"]
+        with_pl = wb["T"] <= 4 or wb["ul"] in ("brownian", "heston")
+        both.append(dict(b, grad=False, pl=with_pl and mb["model"] in ("linear", "bs", "identity", "first")
+                         and wb["ul"] in ("brownian", "heston")
+                         and (ctx.thorough or wb["kind"] in ("european", "lookback"))))
+        if ctx.thorough:
+            on = True
+        elif mb["model"] in trainable:
+            on = (wb["ul"] in ("brownian", "heston") or wb["kind"] == "european") and (
+                mb.get("mode") == "vectorised" or wb["ul"] == "brownian")
+        else:
+            on = wb["ul"] == "brownian" and wb["kind"] == "european"
+        if on:
+            both.append(dict(b, grad=True, pl=with_pl and mb["model"] in trainable
+                             and wb["ul"] in ("brownian", "heston")))
+    hblocks = both
     ctx.info["feature_blocks"] = len(fblocks)
     ctx.info["hedge_blocks"] = len(hblocks)
+    ctx.info["hedge_blocks_autograd_on"] = sum(1 for b in hblocks if b["grad"])
     if ctx.quick:
         for b in fblocks:
             ctx.run("feature_tree", b)
